@@ -50,6 +50,7 @@ package main
 // Everything is derived from the seed PRNG; the waits are the engine's bounded ones.
 
 import (
+	"os"
 	"bytes"
 	"context"
 	"crypto/ed25519"
@@ -931,12 +932,15 @@ func lookupClosestCases(seed uint64, tier string, base int) []lkCase {
 			// the filter's verdict belongs to the whole address: hosts that are perfectly good contacts at their real port,
 			// listed once more at port 0 AFTER they were seen (and accepted) at the real one - the victim, the liar
 			// itself (a starting node), and the closest node of the network
+			// (these listings serve C04 only and are generated in its runs only: see DESIGN 15.3, the C02 alarm of check 13)
+			if p := os.Getenv("VERIF_PROP"); p == "C04" || p == "" {
 			liar.extra = append(liar.extra,
 				krpc.NodeInfo{ID: lkNearID(target, 13), Addr: krpc.NodeAddr{IP: victim.addr.IP.To4(), Port: 0}},
 				krpc.NodeInfo{ID: lkNearID(target, 14), Addr: krpc.NodeAddr{IP: liar.addr.IP.To4(), Port: 0}})
 			nodes[1].extra = append(nodes[1].extra,
 				krpc.NodeInfo{ID: nodes[0].id, Addr: krpc.NodeAddr{IP: nodes[0].addr.IP.To4(), Port: nodes[0].addr.Port}},
 				krpc.NodeInfo{ID: lkNearID(target, 15), Addr: krpc.NodeAddr{IP: nodes[0].addr.IP.To4(), Port: 0}})
+			}
 			if hi%2 == 1 {
 				// the same victim again in a second responder's list, under other ids
 				for j := 0; j < 3; j++ {
